@@ -76,7 +76,8 @@ class Collective:
         for i, event_i in events[:-1].iterrows():
             for j, event_j in events[i + 1 :].iterrows():
                 if event_j['start time'] - event_i['stop time'] > max_steps:
-                    break
+                    # rows are ordered by stop time, so a later row may still start early enough
+                    continue
                 if event_i['start time'] - event_j['stop time'] > max_steps:
                     continue
                 if event_i['atom index'] == event_j['atom index']:
